@@ -563,7 +563,7 @@ func (R *Run) ruleDeclaredSizeCopy() {
 		if calleeName(c) != "io.CopyN" {
 			continue
 		}
-		if stripConv(c.Args[0]) != ssa.Value(fn.Params[1]) {
+		if stripConv(resolveLocal(stripConv(c.Args[0]))) != ssa.Value(fn.Params[1]) {
 			continue
 		}
 		n++
@@ -1548,7 +1548,11 @@ func deferWritesResult(fn *ssa.Function, cell *ssa.Alloc) bool {
 		found := false
 		eachInstr(f, func(ins ssa.Instruction) {
 			if st, ok := ins.(*ssa.Store); ok && cellOfAddr(st.Addr) == ssa.Value(cell) {
-				found = true
+				// (deferred code that stores something that is not nil — an error wrapped with context — cannot turn a
+				// failure into a success)
+				if (nilState{}).of(st.Val) != 2 {
+					found = true
+				}
 			}
 		})
 		if found {
